@@ -66,6 +66,12 @@ Definition expected_mtype (b : body) (mt : ansmtype) : bool :=
   | BadJSON => false
   end.
 
+(* the labels under which the servers share their KEK with the join server: the network server is
+   identified by its NetID text (SenderID), the application server by the configured AS-KEK label *)
+Definition ns_label (b : body) : list N := match b with Body r => r_sender r | BadJSON => [] end.
+Definition as_label (t : table) (d : device) : list N :=
+  match assoc (d_deveui d) (tb_aslabels t) (Ok []) with Ok l => l | _ => [] end.
+
 Definition usable (t : table) (b : body) (obs : answer) (d : device) (reqtype devnonce joinnonce : N)
     (netid devaddr : list N) (dls rxdelay : N) (cfl : option (list N)) (p : part) : bool :=
   match obs with
@@ -73,7 +79,7 @@ Definition usable (t : table) (b : body) (obs : answer) (d : device) (reqtype de
     match device_accept d reqtype devnonce phy with
     | Some s =>
       let e := expected_mtype b mt && echoes s joinnonce netid devaddr dls rxdelay cfl in
-      let k := servers_share_keys (server_keks t) s (k_snwksint keys) (k_fnwksint keys) (k_nwksenc keys)
+      let k := servers_share_keys (server_keks t) (ns_label b) (as_label t d) s (k_snwksint keys) (k_fnwksint keys) (k_nwksenc keys)
                                   (k_nwkskey keys) (k_appskey keys) in
       match p with PAll => e && k | PNoKeys => e | PKeysOnly => k end
     | None => match p with PKeysOnly => true | _ => false end
